@@ -4,6 +4,7 @@ import (
 	"fmt"
 	"os"
 	"runtime/pprof"
+	"sort"
 	"strconv"
 	"time"
 )
@@ -19,6 +20,27 @@ func main() {
 		defer pprof.StopCPUProfile()
 	}
 	switch os.Args[1] {
+	case "check":
+		// artsym check <Cnn> --tier quick|thorough
+		if len(os.Args) < 3 {
+			fmt.Fprintln(os.Stderr, "usage: artsym check <id> [--tier quick|thorough]")
+			os.Exit(2)
+		}
+		tier := os.Getenv("VERIF_TIER")
+		for i := 3; i < len(os.Args); i++ {
+			if os.Args[i] == "--tier" && i+1 < len(os.Args) {
+				tier = os.Args[i+1]
+			}
+		}
+		if tier == "" {
+			tier = "quick"
+		}
+		spec, ok := checkSpecs[os.Args[2]]
+		if !ok {
+			fmt.Fprintln(os.Stderr, "unknown check", os.Args[2])
+			os.Exit(2)
+		}
+		os.Exit(runCheck(spec, tier))
 	case "run":
 		// artsym run <harness> [params...]
 		eng, err := LoadEngine("")
@@ -32,6 +54,12 @@ func main() {
 			v, _ := strconv.Atoi(a)
 			scn.Params = append(scn.Params, v)
 		}
+		if os.Getenv("VERIF_NOSUM") == "" {
+			eng.EstablishSummaries(16)
+			for _, n := range eng.sumNotes {
+				fmt.Println("summary:", n)
+			}
+		}
 		ex := NewExplorer(eng, 16)
 		if w := os.Getenv("VERIF_WORKERS"); w != "" {
 			ex.workers, _ = strconv.Atoi(w)
@@ -44,6 +72,20 @@ func main() {
 		fmt.Printf("paths=%d finished=%d killed=%d stopped=%d inconclusive=%d steps=%d in %v; queries=%d sat=%d unsat=%d solver=%v\n",
 			scn.Paths, scn.Finished, scn.Killed, scn.Stopped, scn.Inconclusive, scn.Steps, time.Since(t0),
 			gStats.Queries, gStats.Sat, gStats.Unsat, time.Duration(gStats.NanosIn))
+		if os.Getenv("VERIF_QSITES") != "" {
+			type kv struct {
+				k string
+				v int
+			}
+			var l []kv
+			for k, v := range qSites {
+				l = append(l, kv{k, v})
+			}
+			sort.Slice(l, func(i, j int) bool { return l[i].v > l[j].v })
+			for i := 0; i < len(l) && i < 25; i++ {
+				fmt.Printf("%6d %s\n", l[i].v, l[i].k)
+			}
+		}
 		for _, m := range scn.IncMsgs {
 			fmt.Println("INCONCLUSIVE:", m)
 		}
